@@ -166,23 +166,39 @@ def split(e, kind):
 # ------------------------------------------------------------------------------------------------------
 # graded composite Gauss rules (independent of the repo's singular rules)
 # ------------------------------------------------------------------------------------------------------
-def graded_rule(a, b, n, levels_lo=0, levels_hi=0, ratio=0.5, pts01=None):
+def _max_levels(width, ratio, first_node, dmin, levels):
+    """largest L <= levels with width * ratio**L * first_node >= dmin (nodes keep the distance dmin from the graded end)"""
+    if not dmin:
+        return levels
+    L = levels
+    while L > 0 and width * ratio ** L * first_node < dmin:
+        L -= 1
+    return L
+
+
+def graded_rule(a, b, n, levels_lo=0, levels_hi=0, ratio=0.5, pts01=None, dmin=0.0):
     """nodes, weights of a composite n-point Gauss rule on [a, b], geometrically graded (factor `ratio`) towards a
-    with levels_lo layers and towards b with levels_hi layers"""
+    with levels_lo layers and towards b with levels_hi layers; with dmin > 0 the number of layers is reduced until every
+    node keeps the distance dmin from the graded end points"""
     import numpy as np
     if pts01 is None:
         x, w = np.polynomial.legendre.leggauss(n)
         pts01 = (0.5 * (x + 1), 0.5 * w)
     gx, gw = pts01
     a, b = float(a), float(b)
+    g1 = float(min(gx[0], 1 - gx[-1]))
     if levels_lo and levels_hi:
         m = 0.5 * (a + b)
+        levels_lo = _max_levels(m - a, ratio, g1, dmin, levels_lo)
+        levels_hi = _max_levels(b - m, ratio, g1, dmin, levels_hi)
         lo = [a + (m - a) * ratio ** k for k in range(levels_lo, -1, -1)]
         hi = [b - (b - m) * ratio ** k for k in range(0, levels_hi + 1)]
         brk = [a] + lo + hi[1:] + [b]
     elif levels_lo:
+        levels_lo = _max_levels(b - a, ratio, g1, dmin, levels_lo)
         brk = [a] + [a + (b - a) * ratio ** k for k in range(levels_lo, -1, -1)]
     elif levels_hi:
+        levels_hi = _max_levels(b - a, ratio, g1, dmin, levels_hi)
         brk = [b - (b - a) * ratio ** k for k in range(0, levels_hi + 1)] + [b]
     else:
         brk = [a, b]
@@ -706,7 +722,7 @@ def _mirror_driver(ns, problem, domain, pw, mesh_spec, Phi):
         ns["residual"] = error_estimator.residual(elems, ns["Phi"], SL, M0u0, g, SL_exact_eval=bool(pw))
 
 
-C03_RULE = dict(n=6, lt_lo=6, lt_hi=2, lx=6, ratio=0.25)
+C03_RULE = dict(n=6, lt_lo=6, lt_hi=2, lx=6, ratio=0.25, dmin=2.5e-5)
 
 
 def _breaks(a, b, values):
@@ -731,7 +747,8 @@ def residual_moments(residual, e, leaves, rule=None):
         p, w = graded_rule(a, b, None, levels_lo=rule["lt_lo"], levels_hi=rule["lt_hi"], ratio=rule["ratio"], pts01=pts01)
         T.append(p), WT.append(w)
     for a, b in zip(xb[:-1], xb[1:]):
-        p, w = graded_rule(a, b, None, levels_lo=rule["lx"], levels_hi=rule["lx"], ratio=rule["ratio"], pts01=pts01)
+        p, w = graded_rule(a, b, None, levels_lo=rule["lx"], levels_hi=rule["lx"], ratio=rule["ratio"], pts01=pts01,
+                           dmin=rule["dmin"])                  # SL.evaluate asserts |x_hat - end point| > 1e-5 inside a panel
         X.append(p), WX.append(w)
     T, WT, X, WX = map(np.concatenate, (T, WT, X, WX))
     R = np.asarray(residual(np.repeat(T, len(X)), np.tile(X, len(T)), e.gamma_space), dtype=float).reshape(len(T), len(X))
